@@ -94,7 +94,8 @@ def build_driver(name, src, flags, compiler=None, extra_srcs=()):
     dd = os.path.join(BUILD, 'drv')
     os.makedirs(dd, exist_ok=True)
     srcp = os.path.join(ROOT, 'harness', src)
-    hs = [srcp, os.path.join(ROOT, 'harness/common.hpp'), os.path.join(ROOT, 'harness/ops.def')] + \
+    hd = os.path.join(ROOT, 'harness')
+    hs = [srcp] + sorted(os.path.join(hd, f) for f in os.listdir(hd) if f.endswith(('.hpp', '.def', '.h'))) + \
         [os.path.join(ROOT, 'harness', e) for e in extra_srcs if not e.startswith('/')]
     key = hashlib.sha1((repo_tree_hash() + file_hash(hs) + ' '.join(flags) + str(compiler)).encode()).hexdigest()
     exe = os.path.join(dd, name)
@@ -123,19 +124,21 @@ def parse_case(line):
 
 def run_pipe(driver_cmd, judge, timeout, judge_args=()):
     """driver | judge ; returns dict(summary, mismatches, samples, per, raw_err)"""
+    import tempfile
     t0 = time.time()
-    p1 = subprocess.Popen(driver_cmd, stdout=subprocess.PIPE, stderr=subprocess.PIPE)
+    errf = tempfile.TemporaryFile(mode='w+b', dir=BUILD)      # a pipe here could fill up and dead-lock the driver
+    p1 = subprocess.Popen(driver_cmd, stdout=subprocess.PIPE, stderr=errf)
     p2 = subprocess.Popen([judge] + list(judge_args), stdin=p1.stdout, stdout=subprocess.PIPE, stderr=subprocess.PIPE, text=True)
     p1.stdout.close()
     res = {'mism': [], 'samples': [], 'per': {}, 'summary': None, 'bad': [], 'diag': [], 'crash': None}
     try:
         out, err2 = p2.communicate(timeout=timeout)
-        err1 = p1.stderr.read().decode(errors='replace')
         rc1 = p1.wait(timeout=30)
     except subprocess.TimeoutExpired:
         p1.kill(); p2.kill()
         res['crash'] = 'timeout after %ds: %s' % (timeout, ' '.join(driver_cmd))
         return res
+    errf.seek(0, 2); sz = errf.tell(); errf.seek(max(0, sz - 3000)); err1 = errf.read().decode(errors='replace'); errf.close()
     for line in out.splitlines():
         if line.startswith('M '):
             body, model = line[2:].rsplit(' => ', 1)
@@ -264,6 +267,9 @@ def run_check(prop, tier, seed, only_stream=None):
     plan = plans.PLANS[prop]
     os.makedirs(os.path.join(ROOT, 'evidence'), exist_ok=True)
     os.makedirs(os.path.join(ROOT, 'replays'), exist_ok=True)
+    for f in os.listdir(os.path.join(ROOT, 'replays')):
+        if f.startswith(prop + '-'):
+            os.remove(os.path.join(ROOT, 'replays', f))
     violations = []        # (replay_path, suffix)
     known_hits = {}
     ev_streams = []
